@@ -85,6 +85,14 @@ pub mod gtext {
         }
     }
 
+    /// `&String` coerces to `&str` (deref coercion), as with alloc's String; the text is ASCII
+    impl core::ops::Deref for String {
+        type Target = str;
+        fn deref(&self) -> &str {
+            unsafe { core::str::from_utf8_unchecked(&self.b[..self.n]) }
+        }
+    }
+
     /// what `{}` renders
     pub trait GDisplay {
         fn put(&self, out: &mut String);
@@ -208,4 +216,37 @@ macro_rules! gtext_format {
     ("{}{}{}{}", $a:expr, $b:expr, $c:expr, $d:expr $(,)?) => {{ let mut s = $crate::verif_support::gtext::String::new(); $crate::verif_support::gtext::GDisplay::put(&$a, &mut s); $crate::verif_support::gtext::GDisplay::put(&$b, &mut s); $crate::verif_support::gtext::GDisplay::put(&$c, &mut s); $crate::verif_support::gtext::GDisplay::put(&$d, &mut s); s }};
     ("{}{}{}{}{}{}", $a:expr, $b:expr, $c:expr, $d:expr, $e:expr, $f:expr $(,)?) => {{ let mut s = $crate::verif_support::gtext::String::new(); $crate::verif_support::gtext::GDisplay::put(&$a, &mut s); $crate::verif_support::gtext::GDisplay::put(&$b, &mut s); $crate::verif_support::gtext::GDisplay::put(&$c, &mut s); $crate::verif_support::gtext::GDisplay::put(&$d, &mut s); $crate::verif_support::gtext::GDisplay::put(&$e, &mut s); $crate::verif_support::gtext::GDisplay::put(&$f, &mut s); s }};
     ("{} {} {} {} {} {}", $a:expr, $b:expr, $c:expr, $d:expr, $e:expr, $f:expr $(,)?) => {{ let mut s = $crate::verif_support::gtext::String::new(); $crate::verif_support::gtext::GDisplay::put(&$a, &mut s); s.push_byte(b' '); $crate::verif_support::gtext::GDisplay::put(&$b, &mut s); s.push_byte(b' '); $crate::verif_support::gtext::GDisplay::put(&$c, &mut s); s.push_byte(b' '); $crate::verif_support::gtext::GDisplay::put(&$d, &mut s); s.push_byte(b' '); $crate::verif_support::gtext::GDisplay::put(&$e, &mut s); s.push_byte(b' '); $crate::verif_support::gtext::GDisplay::put(&$f, &mut s); s }};
+}
+
+/// ghost carrier of a square for the text writers: the accessors they use delegate to the real Square; `notation` is
+/// /repo's own text (chess/square.rs, copied verbatim on every run) compiled against the ghost text library
+pub mod gsq {
+    #![no_implicit_prelude]
+    use ::core::prelude::rust_2021::*;
+    use crate::chess::square::{File, Rank};
+    use crate::verif_support::gtext::{String, ToString};
+    macro_rules! format { ($($t:tt)*) => { $crate::gtext_format!($($t)*) } }
+
+    #[derive(Clone, Copy, PartialEq, Eq)]
+    pub struct Square(pub crate::chess::square::Square);
+    impl Square {
+        pub fn from_file_and_rank(file: File, rank: Rank) -> Self {
+            Square(crate::chess::square::Square::from_file_and_rank(file, rank))
+        }
+        pub fn file(self) -> File {
+            self.0.file()
+        }
+        pub fn rank(self) -> Rank {
+            self.0.rank()
+        }
+        pub fn idx(self) -> u8 {
+            self.0.idx()
+        }
+        //@@ body: chess/square.rs :: impl Square / fn notation => notation
+    }
+    impl PartialEq<crate::chess::square::Square> for Square {
+        fn eq(&self, o: &crate::chess::square::Square) -> bool {
+            self.0 == *o
+        }
+    }
 }
